@@ -90,7 +90,10 @@ def main(argv=None):
         n_dis += fn["discharged"]
         solver_time += r.get("solve_s", 0) or 0
         assumptions.update(r.get("assumptions", []))
-        if r["status"] in ("unsupported", "anchor-missing", "timeout"):
+        if r["status"] == "timeout":
+            degraded.append({"function": key, "reason": "verifier hard timeout: undecided, bounded stand-in only"})
+            continue
+        if r["status"] in ("unsupported", "anchor-missing"):
             was_ok = any(v == "proved" for v in base.get("clauses", {}).values())
             entry = {"function": key, "reason": f"{r['status']}: {r.get('detail', '')[:200]}", "was_proved": was_ok, "code_changed": base.get("ast_hash") not in (None, r.get("ast_hash"))}
             (suspicious if was_ok else degraded).append(entry)
@@ -101,7 +104,8 @@ def main(argv=None):
             bst = base.get("clauses", {}).get(ckey)
             obs = [o for o in r["obligations"] if f"{o['kind']}::{o['clause']}" == ckey and o["status"] != "proved"]
             entry = {"function": key, "clause": ckey, "obligations": [o["name"] for o in obs], "solver": [f"{o['status']}: {o['detail'][:200]}" for o in obs][:3],
-                     "was_proved": bst == "proved", "code_changed": base.get("ast_hash") not in (None, r.get("ast_hash"))}
+                     "was_proved": bst == "proved", "code_changed": base.get("ast_hash") not in (None, r.get("ast_hash")),
+                     "counterexample_path": next((o.get("trace") for o in obs if o.get("trace")), None), "branch": obs[0].get("path") if obs else None}
             (suspicious if bst == "proved" else degraded).append(entry)
         # auxiliary obligations (invariants) that fail only degrade
         for o in r.get("obligations", []):
